@@ -14,6 +14,11 @@ CHECKS['C01'] = ('deviation-bounded product space (<=3 quick / <=4 thorough simu
                  'ProForma writer; all ordered pairs/triples of 10 chains x link words; parse fields, re-parse equality '
                  'and re-serialisation fixpoint checked on every state for both plus spellings and both include_plus '
                  'values', 'DESIGN.md section 4 / C01')
+CHECKS['C06'] = ('three exhaustive layers: cleavage sites for every protein string (len<=5 quick / 6 thorough, 9 letters) x 19 '
+                 'named proteases + 10 user regexes against hand-written predicates / a stdlib-re scan; every site subset '
+                 'of {0..n} (n<=7 / 9) x mc 0..4 x semi x min/max for all span builders against a set comprehension; '
+                 'end-to-end digest / digest_from_config / sequential_digest for every protein (len<=4 / 5) x 1-3 rules '
+                 'x options x 5 return types', 'DESIGN.md section 4 / C06')
 NOT_APPLICABLE = {}
 
 
